@@ -36,6 +36,7 @@ type point struct {
 	Func   string `json:"func"`
 	Line   int    `json:"line"`
 	Coarse bool   `json:"coarse"`
+	Entry  bool   `json:"entry"`
 }
 
 type instr struct {
@@ -43,19 +44,24 @@ type instr struct {
 	points []point
 	file   string
 	fn     string
+	entry  bool // the next list is a function body
 	call   func(id int) ast.Stmt
 }
 
 func (in *instr) newPoint(pos token.Pos, coarse bool) ast.Stmt {
 	id := len(in.points)
-	in.points = append(in.points, point{ID: id, File: in.file, Func: in.fn, Line: in.fset.Position(pos).Line, Coarse: coarse})
+	in.points = append(in.points, point{ID: id, File: in.file, Func: in.fn, Line: in.fset.Position(pos).Line, Coarse: coarse, Entry: coarse && in.entry})
 	return in.call(id)
 }
 
 func (in *instr) list(stmts []ast.Stmt, firstCoarse bool) []ast.Stmt {
 	out := make([]ast.Stmt, 0, 2*len(stmts))
+	entry := in.entry
+	in.entry = false
 	for i, s := range stmts {
+		in.entry = entry && i == 0
 		out = append(out, in.newPoint(s.Pos(), firstCoarse && i == 0))
+		in.entry = false
 		in.stmt(s)
 		out = append(out, s)
 	}
@@ -78,6 +84,7 @@ func (in *instr) exprs(n ast.Node) {
 		if fl, ok := m.(*ast.FuncLit); ok {
 			saved := in.fn
 			in.fn = saved + ".func"
+			in.entry = true
 			in.block(fl.Body, true)
 			in.fn = saved
 			return false
@@ -213,6 +220,7 @@ func main() {
 					if d.Recv != nil && len(d.Recv.List) > 0 {
 						in.fn = recvName(d.Recv.List[0].Type) + "." + d.Name.Name
 					}
+					in.entry = true
 					in.block(d.Body, true)
 				case *ast.GenDecl:
 					in.fn = "(package-level)"
